@@ -101,6 +101,21 @@ class NpProxy:
             return out
         return np.bincount(x, weights, minlength)
 
+    def nan_to_num(self, x, *a, **k):
+        """`np.nan_to_num` of a symbolic array: identity (the real-number model has no NaN; zero gradients are excluded by the property)"""
+        if isinstance(x, np.ndarray) and x.dtype == object:
+            return x
+        return np.nan_to_num(x, *a, **k)
+
+    trace_hook = None
+
+    def trace(self, x, *a, **k):
+        """`np.trace` of a symbolic matrix (the flow's stopping quantity is reported through `trace_hook`)"""
+        r = np.trace(x, *a, **k)
+        if NpProxy.trace_hook is not None:
+            r = NpProxy.trace_hook(r)
+        return r
+
     def float32(self, x):
         """`np.float32(b0)` of a symbolic right-hand side is rounding: identity for the real-number model"""
         if isinstance(x, np.ndarray) and x.dtype == object:
@@ -883,4 +898,203 @@ def gen_solver_glue():
     g.vec("heatRhs", tr, flat_syms(tr, rec2["b"]), names)
     g.raw("/-- facts about the calls of the external kernels observed while tracing -/")
     g.raw("def callFacts : List (String × Bool) := [%s]\n" % ", ".join('("%s", %s)' % (n, "true" if v else "false") for n, v in facts))
+    return [g.write()]
+
+
+def gen_flow():
+    """`tria_mean_curvature_flow` as a protocol: the mesh class, the Solver and `spsolve` are replaced by recorders working on symbols
+    (4 vertices, `max_iter = 2`, symbolic `step` / `stop_eps`; concolic sample: the first `diff` is above `stop_eps`, the second below).
+    Emitted: the order of the calls, both linear systems, the stopping quantity, what is returned."""
+    import lapy.diffgeo as D
+    import scipy.sparse.linalg as SL
+    tr = Tracer(sample={"stop": 1e-7})
+    NpProxy.tracer = tr
+    nv = 4
+    events = []
+    counter = {"w": 0, "y": 0, "m": 0}
+    names = {"step": "step", "stop": "stop"}
+    A = sym_array(tr, "a", (nv, nv))
+    names.update({"a%d_%d" % (i, j): "a%d%d" % (i, j) for i in range(nv) for j in range(nv)})
+
+    def fresh(prefix, shape, sample_scale):
+        k = counter[prefix]
+        counter[prefix] += 1
+        out = np.empty(shape, dtype=object)
+        for idx in np.ndindex(*shape):
+            nm = "%s%d_%s" % (prefix, k, "_".join(str(x) for x in idx))
+            if prefix == "w" and k >= 2:       # the iterate after the second step nearly repeats the previous one: the concolic run stops there
+                tr.sample[nm] = tr.sample["w%d_%s" % (k - 1, "_".join(str(x) for x in idx))] + 1e-9
+            else:
+                tr.sample[nm] = sample_scale * (0.3 + (0.37 * len(tr.sample)) % 0.6)
+            out[idx] = tr.var(nm)
+            names[nm] = "%s%d%s" % (prefix, k, "".join(str(x) for x in idx))
+        return out
+
+    class StubMesh:
+        def __init__(self, v, t, fsinfo=None):
+            self.v = v
+            self.t = t
+            events.append("mesh(v, t) constructed from the argument's arrays" if v is v_in and t is t_in else "mesh constructed from other arrays")
+
+        def normalize_(self):
+            events.append("normalize_")
+            # second normalisation result close to the first: the concolic run stops after iteration 2
+            self.v = fresh("w", (nv, 3), 1.0)
+
+    class StubSolver:
+        def __init__(self, geometry, lump=False, **kw):
+            events.append("Solver(normalised mesh, lump=%s%s)" % (lump, "".join(", %s" % k for k in sorted(kw))) if isinstance(geometry, StubMesh) and counter["w"] == 1
+                          else "Solver(other)")
+            self.stiffness = SymMat(A)
+
+        @staticmethod
+        def fem_tria_mass(geometry, lump=False):
+            events.append("fem_tria_mass(current mesh, lump=%s)" % lump)
+            d = fresh("m", (nv,), 1.0)
+            M = np.empty((nv, nv), dtype=object)
+            for i in range(nv):
+                for j in range(nv):
+                    M[i, j] = d[i] if i == j else tr.lift(0)
+            return SymMat(M)
+
+    systems = []
+
+    def fake_spsolve(a, b):
+        events.append("spsolve")
+        systems.append((a, b))
+        return fresh("y", (nv, 3), 1.0)
+
+    v_in = sym_array(tr, "v", (nv, 3))
+    t_in = np.array(T4)
+    arg = types.SimpleNamespace(v=v_in, t=t_in)
+    saved = (D.TriaMesh, D.Solver, SL.spsolve)
+    D.TriaMesh, D.Solver, SL.spsolve = StubMesh, StubSolver, fake_spsolve
+    diffs = []
+    real_trace = np.trace
+    try:
+        with np_proxied(D, tr), core_quiet():
+            NpProxy.trace_hook = lambda x: (diffs.append(x), x)[1]
+            out = D.tria_mean_curvature_flow(arg, max_iter=3, step=tr.var("step"), stop_eps=tr.var("stop"))
+    finally:
+        D.TriaMesh, D.Solver, SL.spsolve = saved
+        NpProxy.tracer = None
+        NpProxy.trace_hook = None
+    events.append("returns the working mesh" if isinstance(out, StubMesh) else "returns something else")
+    events.append("argument arrays untouched" if arg.v is v_in and arg.t is t_in else "argument modified")
+    allnames = sorted(set(names.values()), key=lambda s: (len(s), s))
+    binder = "(%s : ℝ)" % " ".join(allnames)
+    g = GenModule("FlowGlue", "lapy/diffgeo.py::tria_mean_curvature_flow with recorded mesh / Solver / spsolve (4 vertices, two iterations)", binder)
+    g.set_args(" ".join(allnames))
+    g.pc(tr, names)
+
+    def coo_of(M):
+        return [(i, j, as_sym(tr, M[i, j])) for i in range(M.shape[0]) for j in range(M.shape[1])]
+    for k, (a, b) in enumerate(systems):
+        g.coo("sysA%d" % (k + 1), tr, coo_of(a.M), names)
+        g.vec("sysB%d" % (k + 1), tr, flat_syms(tr, b), names)
+    for k, dsym in enumerate(diffs):
+        g.scalar("diff%d" % (k + 1), tr, as_sym(tr, dsym).id, names)
+    g.raw("def events : List String := [%s]\n" % ", ".join('"%s"' % e for e in events))
+    g.raw("def nSystems : Nat := %d\n" % len(systems))
+    return [g.write()]
+
+
+def gen_geo_glue():
+    """`compute_geodesic_f`, `tria_compute_geodesic_f`, `tria_compute_rotated_f` as protocols: gradient / divergence / Solver replaced by
+    recorders on symbols (2 elements, 3 vertices): what is handed to the divergence, how the Solver is built, what `poisson` receives,
+    what is returned."""
+    import lapy.diffgeo as D
+    tr = Tracer(sample={"x0": 0.4, "x1": -0.3, "x2": 0.9})
+    NpProxy.tracer = tr
+    G = sym_array(tr, "g", (2, 3))
+    TN = sym_array(tr, "n", (2, 3))
+    names = v3_names("g", 2)
+    names.update(v3_names("n", 2))
+    names.update({"x%d" % i: "x%d" % i for i in range(3)})
+    for i in range(3):
+        tr.var("x%d" % i)
+    log = {}
+
+    class Geom:
+        v = np.zeros((3, 3))
+        t = np.array([[0, 1, 2], [0, 2, 1]])
+
+        def tria_normals(self):
+            return TN
+
+    def make(tag):
+        rec = dict(events=[])
+        divout = np.array([tr.lift(0)] * 3, dtype=object)     # opaque: identity of the object is what is checked
+
+        def grad(geom, vfunc):
+            rec["events"].append("gradient(geom, vfunc)" if geom is geo and vfunc is vf_in else "gradient(other)")
+            return G
+
+        def div(geom, field):
+            rec["events"].append("divergence(geom, field)" if geom is geo else "divergence(other)")
+            rec["field"] = field
+            return divout
+
+        class StubSolver:
+            def __init__(self, geometry, lump=False, **kw):
+                rec["events"].append("Solver(geom, lump=%s%s)" % (lump, "".join(", " + k for k in sorted(kw))) if geometry is geo else "Solver(other)")
+                self.stiffness = SymMat(sym_array(tr, "a", (3, 3)))
+                self.mass = "assembled"
+
+            def poisson(self, h=0.0, dtup=(), ntup=()):
+                rec["events"].append("poisson")
+                rec["h_is_div"] = h is divout
+                rec["dtup"] = dtup
+                rec["ntup"] = ntup
+                rec["mass"] = self.mass
+                return np.array([tr.var("x%d" % i) for i in range(3)], dtype=object)
+        return rec, grad, div, StubSolver
+
+    geo = Geom()
+    vf_in = np.array([1.0, 2.0, 3.0])
+    saved = {k: getattr(D, k) for k in ("compute_gradient", "compute_divergence", "tria_compute_gradient", "tria_compute_divergence", "Solver", "sparse")}
+    eye_calls = []
+
+    def fake_eye(n, *a, **k):
+        eye_calls.append(int(n))
+        return "identity(%d)" % int(n)
+    out = {}
+    try:
+        with np_proxied(D, tr), core_quiet():
+            D.sparse = types.SimpleNamespace(eye=fake_eye)
+            for tag, fn, gname, dname in (("geo", "compute_geodesic_f", "compute_gradient", "compute_divergence"),
+                                          ("tgeo", "tria_compute_geodesic_f", "tria_compute_gradient", "tria_compute_divergence"),
+                                          ("rot", "tria_compute_rotated_f", "tria_compute_gradient", "tria_compute_divergence")):
+                rec, grad, div, stub = make(tag)
+                setattr(D, gname, grad)
+                setattr(D, dname, div)
+                D.Solver = stub
+                res = getattr(D, fn)(geo, vf_in)
+                for k, v in saved.items():
+                    if k != "sparse":
+                        setattr(D, k, v)
+                rec["result"] = res
+                log[tag] = rec
+    finally:
+        for k, v in saved.items():
+            setattr(D, k, v)
+        NpProxy.tracer = None
+    g = GenModule("GeoGlue", "lapy/diffgeo.py::compute_geodesic_f / tria_compute_geodesic_f / tria_compute_rotated_f with recorded gradient, "
+                  "divergence, Solver", "(g0 g1 n0 n1 : V3 ℝ) (x0 x1 x2 : ℝ)")
+    g.set_args("g0 g1 n0 n1 x0 x1 x2")
+    g.pc(tr, names)
+    for tag in ("geo", "tgeo", "rot"):
+        g.vec(tag + "Field", tr, flat_syms(tr, log[tag]["field"]), names)
+        g.vec(tag + "Result", tr, flat_syms(tr, log[tag]["result"]), names)
+
+    def facts(tag):
+        r = log[tag]
+        dt = r["dtup"]
+        return [("%s: events" % tag, " > ".join(r["events"])),
+                ("%s: poisson h is the divergence output" % tag, str(bool(r["h_is_div"]))),
+                ("%s: poisson mass" % tag, str(r["mass"])),
+                ("%s: Dirichlet data" % tag, "none" if not dt else "idx=%s val=%s" % (np.asarray(dt[0]).tolist(), np.asarray(dt[1], float).tolist())),
+                ("%s: Neumann data" % tag, "none" if not r["ntup"] else "some")]
+    allf = facts("geo") + facts("tgeo") + facts("rot")
+    g.raw("def facts : List (String × String) := [%s]\n" % ", ".join('("%s", "%s")' % f for f in allf))
     return [g.write()]
